@@ -930,6 +930,66 @@ func runC08Case(run *runner, idx int64, c *c08Case, seen map[string]int) string 
 				map[string]any{"batch": b})
 		}
 	}
+	// --- the batch-size limit is a live setting: after batches were served under
+	// the first limit it is RAISED on the running server; a batch whose size lies
+	// between the two limits is then within the limit and must get one result per
+	// tuple, each equal to the single check
+	if m.abandoned == "" && !m.fail && len(c.Batches) > 0 && idx%2 == 0 {
+		newLimit := c.BatchLimit + 4
+		if err := env.Reg.Config(env.Ctx).Set("limit.max_batch_check_size", newLimit); err != nil {
+			run.inconclusive(fmt.Sprintf("idx %d: raising the batch limit: %v", idx, err))
+		} else {
+			var pool []int
+			for pi, pr := range c.Probes {
+				if pr.Flavor != "missing-subject" {
+					pool = append(pool, pi)
+				}
+			}
+			size := c.BatchLimit + 2
+			var entries []int
+			for i := 0; len(pool) > 0 && i < size; i++ {
+				entries = append(entries, pool[(i+int(idx))%len(pool)])
+			}
+			if len(entries) == size {
+				ts := make([]*Tup, size)
+				for i, pi := range entries {
+					ts[i] = c.Probes[pi].T
+				}
+				d := c08Depths[0]
+				for _, tr := range []string{"rest-batch", "grpc-batch"} {
+					tr := tr
+					sub := fmt.Sprintf("raised-limit/%s", tr)
+					h0 := env.Hook.cuts()
+					outs, whole := x.batch(tr, ts, d)
+					cutsB := env.Hook.cuts() - h0
+					run.eval(1)
+					run.count("batches_after_the_limit_was_raised", 1)
+					switch {
+					case whole.Kind == "timeout":
+						run.count("timeout_no_decision", 1)
+					case whole.Kind != "ok":
+						m.violate(sub, fmt.Sprintf("C08:batch-refused:%s:%s:size<=raised-limit", tr, whole.Status),
+							fmt.Sprintf("%s refused a batch of %d entries after limit.max_batch_check_size was raised from %d to %d on the running server: %s %s", tr, size, c.BatchLimit, newLimit, whole.Status, whole.Msg),
+							map[string]any{"size": size, "old_limit": c.BatchLimit, "new_limit": newLimit, "answer": whole})
+					case len(outs) != size:
+						m.violate(sub, fmt.Sprintf("C08:batch-count:%s", tr), fmt.Sprintf("%s returned %d results for a batch of %d entries (raised limit)", tr, len(outs), size), nil)
+					default:
+						for i, pi := range entries {
+							i := i
+							e, cuts := m.engineDecision(pi, d)
+							m.judge(fmt.Sprintf("%s/e%d", sub, i), tr+"-entry", pi, d, e, cuts+cutsB, outs[i], func() c08Out {
+								o2, w2 := x.batch(tr, ts, d)
+								if w2.Kind != "ok" || len(o2) != len(ts) {
+									return c08Out{Kind: "error", Status: "batch-" + w2.Status}
+								}
+								return o2[i]
+							})
+						}
+					}
+				}
+			}
+		}
+	}
 	if idx < 3 {
 		run.sample(map[string]any{"index": idx, "variant": c.Variant, "load": c.Load, "config": c.Cfg, "tuples": c.Tuples[:minInt(len(c.Tuples), 12)], "probes": c.Probes, "batches": c.Batches[:minInt(len(c.Batches), 6)], "depths": c08Depths})
 	}
